@@ -10,6 +10,7 @@ import CB.Lemmas.GenBitsSafeGcd
 import CB.Lemmas.GenSafeGcdJump
 import CB.Lemmas.GenSafeGcdLimbs
 import CB.Lemmas.GenSafeGcdDivsteps
+import CB.Lemmas.GenBitsSafeGcdConv
 namespace CB.P10G
 open CB CB.SafeGcd
 
@@ -390,6 +391,71 @@ example :
       Gen.SafeGcdLimbs.UnsatInt.neg 3 [9#64, 0#64, 0#64] ∧
     Gen.SafeGcdLimbs.fg 3 [0#64, 7#64, 0#64] [0#64, 12#64, 0#64] ((1#64, 0#64), (-1#64, 1#64)) =
       ([7#64, 0#64, 0#64], [5#64, 0#64, 0#64]) := by
+  decide +kernel
+
+end CB.P10G
+
+/-! ## T10.G (conversion) — the SOURCE of `UnsatInt::from_uint` / `UnsatInt::to_uint` (the macro `impl_limb_convert!` expanded)
+
+`Gen.SafeGcdLimbs.Convert.from_uint LIMBS SAT_LIMBS input` / `.to_uint LIMBS SAT_LIMBS self` are the Lean translations of what
+src/modular/safegcd.rs and src/modular/safegcd/macros.rs say NOW: tools/translate.py substitutes the macro's parameters into its
+body (`$input` → `input.as_words()`, `$input_bits` → `Word::BITS as usize`, `$output_bits` → `62`, ..) and translates the result
+— the `while bits < total` loop over two bit cursors with the data-dependent step `min(64 - i, 62 - o)` (fuel `total`), then the
+count-down masking loop.  The guard `if LIMBS != safegcd_nlimbs!(SAT_LIMBS * Limb::BITS) { panic!(..) }` is a precondition. -/
+namespace CB.P10G
+open CB CB.SafeGcd
+open CB.GenChains (nats)
+open CB.GenSafeGcdLimbs (WFw)
+
+/-- `UnsatInt::from_uint` of the source IS the model's `fromUint` on EVERY input; when the unsaturated limbs can hold the
+    input (`64·len ≤ 62·LIMBS`) it returns `LIMBS` words, each `< 2^62`, of the SAME value; the source's own limb count
+    `LIMBS = safegcd_nlimbs!(64·SAT_LIMBS)` (the case in which it does not panic) satisfies that -/
+theorem src_unsat_from_uint_exact (L S : Nat) (x : List (BitVec 64)) :
+    nats (Gen.SafeGcdLimbs.Convert.from_uint L S x) = fromUint (nats x) L ∧
+    (64 * x.length ≤ 62 * L →
+      (Gen.SafeGcdLimbs.Convert.from_uint L S x).length = L ∧ WFw (Gen.SafeGcdLimbs.Convert.from_uint L S x) ∧
+      uvalN (nats (Gen.SafeGcdLimbs.Convert.from_uint L S x)) = CB.val (nats x)) ∧
+    (x.length = S → L = nlimbsFor (S * 64) → 64 * x.length ≤ 62 * L) := by
+  have e := GenBits.fromUint_bridge L S x
+  refine ⟨e, fun hfit => ?_, fun hS hL => ?_⟩
+  · obtain ⟨h1, h2, h3⟩ := fromUint_spec (nats x) L (CB.GenChains.nats_WF x) (by rw [CB.GenChains.nats_length]; exact hfit)
+    rw [← e] at h1 h2 h3
+    exact ⟨by rw [CB.GenChains.nats_length] at h1; exact h1, (GenSafeGcdLimbs.WFw_iff _).mpr h2, h3⟩
+  · have := nlimbs_geometry (S * 64)
+    rw [hS, hL]; omega
+
+/-- `UnsatInt::to_uint` of the source IS the model's `toUint` on EVERY input; for words `< 2^62` and `64·SAT_LIMBS ≤ 62·len`
+    it returns `SAT_LIMBS` words whose value is the limb value modulo `2^(64·SAT_LIMBS)` -/
+theorem src_unsat_to_uint_exact (L S : Nat) (u : List (BitVec 64)) :
+    nats (Gen.SafeGcdLimbs.Convert.to_uint L S u) = toUint (nats u) S ∧
+    (WFw u → 64 * S ≤ 62 * u.length →
+      (Gen.SafeGcdLimbs.Convert.to_uint L S u).length = S ∧
+      CB.val (nats (Gen.SafeGcdLimbs.Convert.to_uint L S u)) = uvalN (nats u) % 2 ^ (64 * S)) := by
+  have e := GenBits.toUint_bridge L S u
+  refine ⟨e, fun wu hfit => ?_⟩
+  obtain ⟨h1, _, h3⟩ := toUint_spec (nats u) S ((GenSafeGcdLimbs.WFw_iff u).mp wu) (by rw [CB.GenChains.nats_length]; exact hfit)
+  rw [← e] at h1 h3
+  exact ⟨by rw [CB.GenChains.nats_length] at h1; exact h1, h3⟩
+
+/-- T10.4(a) for the SOURCE: converting to 62-bit words and back returns the input words -/
+theorem src_unsat_convert_roundtrip (L S : Nat) (x : List (BitVec 64)) (hfit : 64 * x.length ≤ 62 * L) :
+    Gen.SafeGcdLimbs.Convert.to_uint L x.length (Gen.SafeGcdLimbs.Convert.from_uint L S x) = x := by
+  apply List.map_injective_iff.mpr (fun a b h => BitVec.eq_of_toNat_eq h)
+  show nats _ = nats x
+  rw [(src_unsat_to_uint_exact L x.length _).1, (src_unsat_from_uint_exact L S x).1]
+  have := toUint_fromUint (nats x) L (CB.GenChains.nats_WF x) (by rw [CB.GenChains.nats_length]; exact hfit)
+  rwa [CB.GenChains.nats_length] at this
+
+/-- the two conversions collected: the hand-written model of `impl_limb_convert!` is the translated source -/
+theorem safegcd_convert_is_translated_source :
+    (∀ (L S : Nat) (x : List (BitVec 64)), nats (Gen.SafeGcdLimbs.Convert.from_uint L S x) = fromUint (nats x) L) ∧
+    (∀ (L S : Nat) (u : List (BitVec 64)), nats (Gen.SafeGcdLimbs.Convert.to_uint L S u) = toUint (nats u) S) :=
+  ⟨GenBits.fromUint_bridge, GenBits.toUint_bridge⟩
+
+/-- non-vacuity: the translated source on two 64-bit words / three 62-bit words — `2^64 - 1 + 5·2^64` -/
+example :
+    Gen.SafeGcdLimbs.Convert.from_uint 3 2 [0xFFFFFFFFFFFFFFFF#64, 5#64] = [0x3FFFFFFFFFFFFFFF#64, 23#64, 0#64] ∧
+    Gen.SafeGcdLimbs.Convert.to_uint 3 2 [0x3FFFFFFFFFFFFFFF#64, 23#64, 0#64] = [0xFFFFFFFFFFFFFFFF#64, 5#64] := by
   decide +kernel
 
 end CB.P10G
